@@ -33,6 +33,7 @@
 #include <tuple>
 #include <vector>
 #include "common.h"
+#include <sys/resource.h>
 
 #ifndef C07_COL
 #define C07_COL NAIVE_VECTOR
@@ -233,6 +234,15 @@ static std::string run_P(const std::vector<Op>& ops) {
 
 int main() {
   vh::install();
+  {  // a runaway loop of a broken implementation must not take the machine down: 3 GB of address space, 120 s of CPU
+    struct rlimit rl;
+    rl.rlim_cur = rl.rlim_max = (rlim_t)3 << 30;
+    setrlimit(RLIMIT_AS, &rl);
+    rl.rlim_cur = 60; rl.rlim_max = 65;
+    setrlimit(RLIMIT_CPU, &rl);
+    signal(SIGXCPU, vh::on_crash);
+    signal(SIGALRM, vh::on_crash);  // per-case watchdog (wall clock): a case takes microseconds, 20 s means a hang
+  }
   std::string line;
   static char buf[1 << 20];
   while (fgets(buf, sizeof buf, stdin)) {
@@ -245,6 +255,7 @@ int main() {
     if (!parse_case(line, mode, dimmax, shortest, ops)) { vh::emit("BADLINE"); continue; }
     // the answer of a crashing case must identify the case: flush what precedes, so that the CRASH line is its answer
     vh::flush();
+    alarm(20);
     std::string r;
     try {
       if (mode == 'Z') r = run_Z(ops);
@@ -255,6 +266,7 @@ int main() {
     } catch (const std::exception& e) {
       r = std::string("EXC-OUTER ") + e.what();
     }
+    alarm(0);
     vh::emit(r);
   }
   vh::flush();
